@@ -1,6 +1,6 @@
 (* SchedP.v - proofs about the scheduler model Sched.v (slice conc, property C16). *)
 From LY Require Import Base Sched.
-From Coq Require Import ZifyBool ZifyNat ZifyN Permutation.
+From Coq Require Import ZifyBool ZifyNat ZifyN.
 Local Open Scope N_scope.
 
 (* ---------------------------------------------------------------------------------------------------------------
@@ -217,15 +217,15 @@ Proof.
       dstep.
   - (* ErrWrite *)
     destruct (t_reg ts) as [| |[p|]|]; try (cbn [fst snd]; split; [dstep|evs]).
-    destruct (p_gen p =? s_egen st); [destruct (nth_error (s_erecs st) (p_idx p))|]; cbn [fst snd];
+    destruct (nth_error (s_erecs st) (p_idx p)); cbn [fst snd];
       (split; [dstep|]); evs.
   - (* ErrRead *)
     destruct (t_reg ts) as [| |[p|]|]; try (cbn [fst snd]; split; [dstep|evs]).
-    destruct (p_gen p =? s_egen st); [destruct (nth_error (s_erecs st) (p_idx p))|]; cbn [fst snd];
+    destruct (nth_error (s_erecs st) (p_idx p)); cbn [fst snd];
       (split; [dstep|]); evs.
   - (* ErrClear *)
     destruct (t_reg ts) as [| |[p|]|]; try (cbn [fst snd]; split; [dstep|evs]).
-    destruct (p_gen p =? s_egen st); [destruct (nth_error (s_erecs st) (p_idx p))|]; cbn [fst snd];
+    destruct (nth_error (s_erecs st) (p_idx p)); cbn [fst snd];
       (split; [dstep|]); evs.
   - cbn [fst snd]. split; [dstep|evs].
   - cbn [fst snd]. split; [dstep|evs].
@@ -282,11 +282,11 @@ Qed.
 Definition err_inv (st : state) : Prop :=
   (forall i r, nth_error (s_erecs st) i = Some r -> forall it, In it (snd r) -> fst it = fst r) /\
   (forall t ts p, nth_error (s_thr st) t = Some ts -> t_reg ts = RPtr (Some p) ->
-     p_gen p <= s_egen st /\
-     (p_gen p = s_egen st -> exists r, nth_error (s_erecs st) (p_idx p) = Some r /\ fst r = t)).
+     exists r, nth_error (s_erecs st) (p_idx p) = Some r /\ fst r = t).
 
+(* what every step guarantees: error lists only hold the reader's own items, and no handle dangles *)
 Definition err_good (t : tid) (e : event) : Prop :=
-  forall items, e = EvErrGot (Some items) -> forall it, In it items -> fst it = t.
+  (forall items, e = EvErrGot (Some items) -> forall it, In it items -> fst it = t) /\ is_dangling e = false.
 
 Lemma find_rec_spec recs t : forall k i,
   find_rec recs t k = Some i -> (k <= i)%nat /\ exists r, nth_error recs (i - k) = Some r /\ fst r = t.
@@ -300,12 +300,12 @@ Qed.
 
 Lemma err_inv_step st st1 t ts ts' :
   err_inv st -> nth_error (s_thr st) t = Some ts -> s_thr st1 = s_thr st -> s_erecs st1 = s_erecs st ->
-  s_egen st1 = s_egen st -> (t_reg ts' = t_reg ts \/ forall p, t_reg ts' <> RPtr (Some p)) ->
+  (t_reg ts' = t_reg ts \/ forall p, t_reg ts' <> RPtr (Some p)) ->
   err_inv (set_thr st1 (lset (s_thr st1) t ts')).
 Proof.
-  intros [Ha Hb] Ht Hthr Hrec Hgen Hreg. split; cbn [s_erecs s_egen s_thr set_thr].
+  intros [Ha Hb] Ht Hthr Hrec Hreg. split; cbn [s_erecs s_egen s_thr set_thr].
   - rewrite Hrec. exact Ha.
-  - intros u tsu p Hu Hp. rewrite Hthr in Hu. rewrite Hrec, Hgen. destruct (Nat.eq_dec t u) as [->|Hne].
+  - intros u tsu p Hu Hp. rewrite Hthr in Hu. rewrite Hrec. destruct (Nat.eq_dec t u) as [->|Hne].
     + rewrite (lset_same _ _ _ _ Ht) in Hu. inversion Hu; subst tsu. destruct Hreg as [Hreg|Hreg].
       * apply (Hb u ts p Ht). rewrite <- Hreg. exact Hp.
       * exfalso. apply (Hreg p). exact Hp.
@@ -314,22 +314,19 @@ Qed.
 
 Lemma s_erecs_set_holder st m h : s_erecs (set_holder st m h) = s_erecs st.
 Proof. destruct m; reflexivity. Qed.
-Lemma s_egen_set_holder st m h : s_egen (set_holder st m h) = s_egen st.
-Proof. destruct m; reflexivity. Qed.
 
 Ltac estep :=
   match goal with
   | Hinv : err_inv ?st, Ht : nth_error (s_thr ?st) _ = Some ?ts |- _ =>
       apply err_inv_step with (st := st) (ts := ts);
       [exact Hinv | exact Ht | try reflexivity; try apply s_thr_set_holder | try reflexivity; try apply s_erecs_set_holder
-       | try reflexivity; try apply s_egen_set_holder
        | first [left; reflexivity | left; cbn [t_reg]; symmetry; assumption | right; intros ? ?; discriminate]]
   end.
 
 Ltac eevs :=
   let ev := fresh "ev" in let Hev := fresh "Hev" in let items := fresh "items" in let Hi := fresh "Hi" in
   intros ev Hev; cbn [In snd] in Hev;
-  repeat (destruct Hev as [<-|Hev]; [intros items Hi; try discriminate|]); try contradiction.
+  repeat (destruct Hev as [<-|Hev]; [split; [intros items Hi; try discriminate|try reflexivity]|]); try contradiction.
 
 Lemma lset_nth {A} (l : list A) i j a x :
   nth_error (lset l i a) j = Some x -> (i = j /\ x = a) \/ nth_error l j = Some x.
@@ -343,9 +340,7 @@ Qed.
 
 Lemma err_inv_step2 st t ts ts' :
   err_inv st -> nth_error (s_thr st) t = Some ts ->
-  (forall p, t_reg ts' = RPtr (Some p) ->
-     p_gen p <= s_egen st /\
-     (p_gen p = s_egen st -> exists r, nth_error (s_erecs st) (p_idx p) = Some r /\ fst r = t)) ->
+  (forall p, t_reg ts' = RPtr (Some p) -> exists r, nth_error (s_erecs st) (p_idx p) = Some r /\ fst r = t) ->
   err_inv (set_thr st (lset (s_thr st) t ts')).
 Proof.
   intros [Ha Hb] Ht Hreg. split; cbn [s_erecs s_egen s_thr set_thr]; [exact Ha|].
@@ -369,19 +364,11 @@ Proof.
     { destruct (Nat.eq_dec t u) as [->|Hne].
       - rewrite (lset_same _ _ _ _ Ht) in Hu. inversion Hu; subst tsu. exists ts. split; [exact Ht|]. rewrite <- Hreg; exact Hp.
       - rewrite lset_other in Hu by exact Hne. exists tsu. auto. }
-    destruct Hold as [tso [Hu' Hp']]. destruct (Hb u tso p Hu' Hp') as [Hle Hex]. split; [exact Hle|].
-    intro Hg. destruct (Hex Hg) as [r0 [Hr0 Hf0]].
+    destruct Hold as [tso [Hu' Hp']]. destruct (Hb u tso p Hu' Hp') as [r0 [Hr0 Hf0]].
     destruct (Nat.eq_dec i (p_idx p)) as [Heq|Hne].
     + subst i. rewrite Hi in Hr0. inversion Hr0; subst r0. exists (fst r, items'). split; [|exact Hf0].
       apply (lset_same _ _ _ _ Hi).
     + exists r0. split; [|exact Hf0]. rewrite lset_other by exact Hne. exact Hr0.
-Qed.
-
-Lemma err_resize_gen g sz md u :
-  fst (fst (err_resize g sz md u)) = g \/ fst (fst (err_resize g sz md u)) = g + 1.
-Proof.
-  unfold err_resize. destruct ((if (md =? 1) && (50 <=? u * 100 / sz) then 2 else md) =? 2); cbn;
-    destruct (75 <=? u * 100 / sz); cbn; auto.
 Qed.
 
 Lemma exec_err st t :
@@ -400,13 +387,12 @@ Proof.
   - (* ErrFind *)
     cbn [fst snd]. split; [|eevs]. apply err_inv_step2 with (ts := ts); [exact Hinv|exact Ht|].
     cbn [t_reg]. intros p Hp. destruct (find_rec (s_erecs st) t 0) as [i|] eqn:Hf; [|discriminate].
-    inversion Hp; subst p. cbn [p_gen p_idx]. split; [lia|]. intros _.
+    inversion Hp; subst p. cbn [p_idx].
     destruct (find_rec_spec _ _ _ _ Hf) as [_ [r [Hn Hr]]]. rewrite Nat.sub_0_r in Hn. exists r; auto.
   - (* ErrInsert *)
     destruct (find_rec (s_erecs st) t 0) as [i|] eqn:Hf.
     + cbn [fst snd]. split; [estep|eevs].
-    + pose proof (err_resize_gen (s_egen st) (s_esize st) (s_emode st) (N.of_nat (length (s_erecs st ++ [(t, [])])))) as Hg.
-      destruct (err_resize (s_egen st) (s_esize st) (s_emode st) (N.of_nat (length (s_erecs st ++ [(t, [])])))) as [[g sz] md].
+    + destruct (err_resize (s_egen st) (s_esize st) (s_emode st) (N.of_nat (length (s_erecs st ++ [(t, [])])))) as [[g sz] md].
       cbn [fst snd] in *. split; [|eevs]. destruct Hinv as [Ha Hb].
       split; cbn [s_erecs s_egen s_thr set_thr set_err].
       * intros j r Hj it Hin. destruct (Nat.lt_ge_cases j (length (s_erecs st))) as [Hlt|Hge].
@@ -416,35 +402,28 @@ Proof.
            ++ destruct k; discriminate.
       * intros u tsu p Hu Hp. destruct (Nat.eq_dec t u) as [->|Hne].
         -- rewrite (lset_same _ _ _ _ Ht) in Hu. inversion Hu; subst tsu. cbn [t_reg] in Hp. inversion Hp; subst p.
-           cbn [p_gen p_idx]. split; [lia|]. intros _. exists (u, []). split; [|reflexivity].
+           cbn [p_idx]. exists (u, []). split; [|reflexivity].
            rewrite nth_error_app2 by lia. rewrite Nat.sub_diag. reflexivity.
-        -- rewrite lset_other in Hu by exact Hne. destruct (Hb u tsu p Hu Hp) as [Hle Hex]. split; [lia|].
-           intro Hpg. assert (Hgg : p_gen p = s_egen st) by lia. destruct (Hex Hgg) as [r [Hr Hfr]].
+        -- rewrite lset_other in Hu by exact Hne. destruct (Hb u tsu p Hu Hp) as [r [Hr Hfr]].
            exists r. split; [|exact Hfr]. rewrite nth_error_app1; [exact Hr|]. apply nth_error_Some. congruence.
   - (* ErrWrite *)
     destruct (t_reg ts) as [|b|[p|]|b] eqn:Hreg; try (cbn [fst snd]; split; [estep|eevs]).
-    destruct (p_gen p =? s_egen st) eqn:Hg; [|cbn [fst snd]; split; [estep|eevs]].
-    destruct (nth_error (s_erecs st) (p_idx p)) as [r|] eqn:Hr; [|cbn [fst snd]; split; [estep|eevs]].
+    destruct Hinv as [Ha Hb]. destruct (Hb t ts p Ht Hreg) as [r [Hr Hfr]]. rewrite Hr.
     cbn [fst snd]. split; [|eevs].
-    refine (err_inv_recmod st t ts _ (p_idx p) r _ Hinv Ht _ Hr _); [cbn; symmetry; exact Hreg|].
+    refine (err_inv_recmod st t ts _ (p_idx p) r _ (conj Ha Hb) Ht _ Hr _); [cbn; symmetry; exact Hreg|].
     intros it Hin. apply in_app_or in Hin. destruct Hin as [Hin|[<-|[]]].
-    + destruct Hinv as [Ha _]. apply (Ha _ _ Hr it Hin).
-    + destruct Hinv as [_ Hb]. apply N.eqb_eq in Hg. destruct (Hb t ts p Ht Hreg) as [_ Hex].
-      destruct (Hex Hg) as [r0 [Hr0 Hf0]]. rewrite Hr in Hr0. inversion Hr0; subst r0. cbn. symmetry; exact Hf0.
+    + apply (Ha _ _ Hr it Hin).
+    + cbn. symmetry; exact Hfr.
   - (* ErrRead *)
     destruct (t_reg ts) as [|b|[p|]|b] eqn:Hreg; try (cbn [fst snd]; split; [estep|eevs]).
-    destruct (p_gen p =? s_egen st) eqn:Hg; [|cbn [fst snd]; split; [estep|eevs]].
-    destruct (nth_error (s_erecs st) (p_idx p)) as [r|] eqn:Hr; [|cbn [fst snd]; split; [estep|eevs]].
+    pose proof Hinv as [Ha Hb]. destruct (Hb t ts p Ht Hreg) as [r [Hr Hfr]]. rewrite Hr.
     cbn [fst snd]. split; [estep|eevs]. inversion Hi; subst items. intros it Hin.
-    destruct Hinv as [Ha Hb]. apply N.eqb_eq in Hg. destruct (Hb t ts p Ht Hreg) as [_ Hex].
-    destruct (Hex Hg) as [r0 [Hr0 Hf0]]. rewrite Hr in Hr0. inversion Hr0; subst r0.
-    rewrite (Ha _ _ Hr it Hin). exact Hf0.
+    rewrite (Ha _ _ Hr it Hin). exact Hfr.
   - (* ErrClear *)
     destruct (t_reg ts) as [|b|[p|]|b] eqn:Hreg; try (cbn [fst snd]; split; [estep|eevs]).
-    destruct (p_gen p =? s_egen st) eqn:Hg; [|cbn [fst snd]; split; [estep|eevs]].
-    destruct (nth_error (s_erecs st) (p_idx p)) as [r|] eqn:Hr; [|cbn [fst snd]; split; [estep|eevs]].
+    destruct Hinv as [Ha Hb]. destruct (Hb t ts p Ht Hreg) as [r [Hr Hfr]]. rewrite Hr.
     cbn [fst snd]. split; [|eevs].
-    refine (err_inv_recmod st t ts _ (p_idx p) r _ Hinv Ht _ Hr _); [cbn; symmetry; exact Hreg|]. intros it [].
+    refine (err_inv_recmod st t ts _ (p_idx p) r _ (conj Ha Hb) Ht _ Hr _); [cbn; symmetry; exact Hreg|]. intros it [].
   - cbn [fst snd]. split; [estep|eevs].
   - cbn [fst snd]. split; [estep|eevs].
   - cbn [fst snd]. split; [estep|eevs].
@@ -475,7 +454,16 @@ Theorem err_records_isolated d0 progs sched :
   forall it, In it items -> fst it = t.
 Proof.
   destruct (run_invariant err_inv err_good exec_err sched (init d0 progs) (err_inv_init d0 progs)) as [_ HG].
-  intros t items Hin. apply (HG t _ Hin items eq_refl).
+  intros t items Hin. destruct (HG t _ Hin) as [H _]. apply (H items eq_refl).
+Qed.
+
+(* the handle returned by ly_err_get_rec / ly_err_new_rec names a record for as long as the context lives: arbitrary
+   programs, any number of threads, every schedule *)
+Theorem err_rec_pointer_stable d0 progs sched :
+  forall t e, In (t, e) (snd (run sched (init d0 progs))) -> is_dangling e = false.
+Proof.
+  destruct (run_invariant err_inv err_good exec_err sched (init d0 progs) (err_inv_init d0 progs)) as [_ HG].
+  intros t e Hin. destruct (HG t _ Hin) as [_ H]. exact H.
 Qed.
 
 (* ---------------------------------------------------------------------------------------------------------------
@@ -533,7 +521,7 @@ Proof.
       try (destruct (negb (s_dict st s =? 0))); try (destruct (flag (t_reg ts)));
       try (destruct (find_rec (s_erecs st) t 0));
       try (destruct (err_resize (s_egen st) (s_esize st) (s_emode st) (N.of_nat (length (s_erecs st ++ [(t, [])])))) as [[g sz] md]);
-      try (destruct (t_reg ts) as [|b0|[p|]|b0]); try (destruct (p_gen p =? s_egen st));
+      try (destruct (t_reg ts) as [|b0|[p|]|b0]);
       try (destruct (nth_error (s_erecs st) (p_idx p)));
       cbn [fst snd]; try exact Hinv;
       try (apply Hgen; [try reflexivity; try apply s_thr_set_holder|reflexivity|intros ? ? ?; discriminate])
@@ -574,7 +562,7 @@ Proof.
         try (destruct (negb (s_dict st s =? 0))); try (destruct (flag (t_reg tsu)));
         try (destruct (find_rec (s_erecs st) u 0));
         try (destruct (err_resize (s_egen st) (s_esize st) (s_emode st) (N.of_nat (length (s_erecs st ++ [(u, [])])))) as [[g sz] md]);
-        try (destruct (t_reg tsu) as [|b0|[p0|]|b0]); try (destruct (p_gen p0 =? s_egen st));
+        try (destruct (t_reg tsu) as [|b0|[p0|]|b0]);
         try (destruct (nth_error (s_erecs st) (p_idx p0)));
         cbn [fst snd s_thr set_thr]; try reflexivity; try apply lset_length;
         try (rewrite lset_length; destruct m; reflexivity). }
@@ -823,7 +811,7 @@ Proof.
       try (destruct (negb (s_dict st s =? 0))); try (destruct (flag (t_reg ts)));
       try (destruct (find_rec (s_erecs st) t 0));
       try (match goal with |- context [err_resize ?x1 ?x2 ?x3 ?x4] => destruct (err_resize x1 x2 x3 x4) as [[g sz] md] end);
-      try (destruct (t_reg ts) as [|b0|[p0|]|b0]); try (destruct (p_gen p0 =? s_egen st));
+      try (destruct (t_reg ts) as [|b0|[p0|]|b0]);
       try (destruct (nth_error (s_erecs st) (p_idx p0)));
       cbn [fst snd];
       try (exfalso; eapply Hns; reflexivity);
@@ -836,7 +824,7 @@ Proof.
       try (destruct (negb (s_dict st s =? 0))); try (destruct (flag (t_reg ts)));
       try (destruct (find_rec (s_erecs st) t 0));
       try (match goal with |- context [err_resize ?x1 ?x2 ?x3 ?x4] => destruct (err_resize x1 x2 x3 x4) as [[g sz] md] end);
-      try (destruct (t_reg ts) as [|b0|[p0|]|b0]); try (destruct (p_gen p0 =? s_egen st));
+      try (destruct (t_reg ts) as [|b0|[p0|]|b0]);
       try (destruct (nth_error (s_erecs st) (p_idx p0)));
       cbn [fst snd]; try reflexivity;
       try (apply thread_rem_upd_other; [try reflexivity; try apply s_thr_set_holder|exact Hne]).
@@ -975,143 +963,4 @@ Proof.
   split.
   - apply (replay_rets_unique _ _ d0); [rewrite expect_map_fst; reflexivity|exact Hok|exact H1].
   - intro x. rewrite (Hfin Hl). rewrite replay_fst_expect. apply H2.
-Qed.
-
-(* ---------------------------------------------------------------------------------------------------------------
-   error records: with at most five threads the arena is never enlarged, so no record pointer ever dangles
-   --------------------------------------------------------------------------------------------------------------- *)
-Definition small_inv (n : nat) (st : state) : Prop :=
-  s_egen st = 0 /\ s_esize st = 8 /\ length (s_thr st) = n /\
-  NoDup (map fst (s_erecs st)) /\ (forall r, In r (s_erecs st) -> (fst r < n)%nat).
-
-Lemma find_rec_none recs t : forall k, find_rec recs t k = None -> ~ In t (map fst recs).
-Proof.
-  induction recs as [|r recs IH]; intros k H; cbn in *; [tauto|].
-  destruct (Nat.eqb (fst r) t) eqn:E; [discriminate|]. apply Nat.eqb_neq in E. intros [Hin|Hin]; [congruence|].
-  apply (IH _ H Hin).
-Qed.
-
-Lemma nodup_bound (l : list nat) n : NoDup l -> (forall x, In x l -> (x < n)%nat) -> (length l <= n)%nat.
-Proof.
-  intros Hnd Hlt. rewrite <- (seq_length n 0). apply NoDup_incl_length; [exact Hnd|].
-  intros x Hx. apply in_seq. specialize (Hlt x Hx). lia.
-Qed.
-
-Lemma err_resize_small md used : used <= 5 -> exists md', err_resize 0 8 md used = (0, 8, md').
-Proof.
-  intro H. unfold err_resize.
-  assert (Hr : used * 100 / 8 <= 62).
-  { replace 62 with (500 / 8) by reflexivity. apply N.div_le_mono; lia. }
-  assert (H75 : (75 <=? used * 100 / 8) = false) by (apply N.leb_gt; lia).
-  rewrite H75. rewrite andb_false_r. eexists; reflexivity.
-Qed.
-
-Lemma map_fst_lset (recs : list erec) i r items :
-  nth_error recs i = Some r -> map fst (lset recs i (fst r, items)) = map fst recs.
-Proof.
-  revert i; induction recs as [|x recs IH]; intros [|i] H; cbn in *; try discriminate.
-  - inversion H; subst. reflexivity.
-  - f_equal. apply IH; exact H.
-Qed.
-
-Lemma in_lset {A} (l : list A) i a x : In x (lset l i a) -> x = a \/ In x l.
-Proof.
-  revert i; induction l as [|y l IH]; intros [|i] H; cbn in *; try tauto.
-  - destruct H as [H|H]; auto.
-  - destruct H as [H|H]; auto. destruct (IH _ H); auto.
-Qed.
-
-Definition nodangle (_ : tid) (e : event) : Prop := is_dangling e = false.
-
-Ltac sstep Hs :=
-  destruct Hs as [Hs1 [Hs2 [Hs3 [Hs4 Hs5]]]];
-  repeat split; cbn [s_egen s_esize s_thr s_erecs set_thr set_dict set_err set_canon set_hash];
-  try (match goal with |- context [set_holder _ ?m _] => destruct m end;
-       cbn [s_egen s_esize s_thr s_erecs set_holder]);
-  rewrite ?lset_length; try assumption.
-
-Ltac nevs :=
-  let ev := fresh "ev" in let Hev := fresh "Hev" in
-  intros ev Hev; cbn [In snd] in Hev;
-  repeat (destruct Hev as [<-|Hev]; [try reflexivity|]); try contradiction.
-
-Lemma exec_small n st t :
-  (n <= 5)%nat -> err_inv st /\ small_inv n st ->
-  (err_inv (fst (exec st t)) /\ small_inv n (fst (exec st t))) /\ forall e, In e (snd (exec st t)) -> nodangle t e.
-Proof.
-  intros Hn [He Hs]. split; [split; [apply exec_err; exact He|]|].
-  - (* small_inv *)
-    unfold exec. destruct (nth_error (s_thr st) t) as [ts|] eqn:Ht; [|exact Hs].
-    destruct (t_rem ts) as [|stp rest] eqn:Hrem; [exact Hs|].
-    destruct stp; cbn [exec_step];
-      try (destruct (holder st m) eqn:Hh); try (destruct (holds st t m));
-      try (destruct (negb (s_dict st s =? 0)));
-      try (match goal with |- context [flag (t_reg ts)] => destruct (flag (t_reg ts)) end);
-      try (match goal with |- context [match t_reg ts with _ => _ end] => destruct (t_reg ts) as [|b0|[p0|]|b0] eqn:Hreg end);
-      try (destruct (p_gen p0 =? s_egen st));
-      try (destruct (nth_error (s_erecs st) (p_idx p0)) as [r0|] eqn:Hr0);
-      cbn [fst snd]; try exact Hs; try (sstep Hs; fail).
-    + (* ErrInsert *)
-      destruct (find_rec (s_erecs st) t 0) as [i|] eqn:Hf; [cbn [fst]; sstep Hs|].
-      destruct Hs as [Hs1 [Hs2 [Hs3 [Hs4 Hs5]]]].
-      assert (Htn : (t < n)%nat). { rewrite <- Hs3. apply nth_error_Some. congruence. }
-      assert (Hnd : NoDup (map fst (s_erecs st ++ [(t, [])]))).
-      { rewrite map_app. cbn [map fst].
-        apply Permutation.Permutation_NoDup with (l := t :: map fst (s_erecs st)).
-        - apply Permutation.Permutation_cons_append.
-        - constructor; [apply (find_rec_none _ _ _ Hf)|exact Hs4]. }
-      assert (Hall : forall r, In r (s_erecs st ++ [(t, [])]) -> (fst r < n)%nat).
-      { intros r Hin. apply in_app_or in Hin. destruct Hin as [Hin|[<-|[]]]; [apply Hs5; exact Hin|exact Htn]. }
-      assert (Hlen : N.of_nat (length (s_erecs st ++ [(t, [])])) <= 5).
-      { assert (Hb := nodup_bound _ n Hnd). rewrite map_length in Hb.
-        assert (Hb' : (length (s_erecs st ++ [(t, [])]) <= n)%nat).
-        { apply Hb. intros x Hx. apply in_map_iff in Hx. destruct Hx as [r [<- Hr]]. apply Hall; exact Hr. }
-        lia. }
-      rewrite Hs1, Hs2. destruct (err_resize_small (s_emode st) _ Hlen) as [md' ->].
-      cbn [fst]. repeat split; cbn [s_egen s_esize s_thr s_erecs set_thr set_err]; rewrite ?lset_length; auto.
-    + (* ErrWrite *)
-      destruct Hs as [Hs1 [Hs2 [Hs3 [Hs4 Hs5]]]].
-      repeat split; cbn [s_egen s_esize s_thr s_erecs set_thr set_err]; rewrite ?lset_length; auto.
-      * rewrite (map_fst_lset _ _ _ _ Hr0). exact Hs4.
-      * intros r Hin. apply in_lset in Hin. destruct Hin as [->|Hin]; [|apply Hs5; exact Hin].
-        cbn [fst]. apply Hs5. eapply nth_error_In; exact Hr0.
-    + (* ErrClear *)
-      destruct Hs as [Hs1 [Hs2 [Hs3 [Hs4 Hs5]]]].
-      repeat split; cbn [s_egen s_esize s_thr s_erecs set_thr set_err]; rewrite ?lset_length; auto.
-      * rewrite (map_fst_lset _ _ _ _ Hr0). exact Hs4.
-      * intros r Hin. apply in_lset in Hin. destruct Hin as [->|Hin]; [|apply Hs5; exact Hin].
-        cbn [fst]. apply Hs5. eapply nth_error_In; exact Hr0.
-  - (* no dangling dereference *)
-    unfold exec. destruct (nth_error (s_thr st) t) as [ts|] eqn:Ht; [|intros e []].
-    destruct (t_rem ts) as [|stp rest] eqn:Hrem; [intros e []|].
-    assert (Hvalid : forall p, t_reg ts = RPtr (Some p) ->
-              (p_gen p =? s_egen st) = true /\ exists r, nth_error (s_erecs st) (p_idx p) = Some r).
-    { intros p Hp. destruct He as [_ Hb]. destruct (Hb t ts p Ht Hp) as [Hle Hex].
-      destruct Hs as [Hs1 _]. assert (Hg : p_gen p = s_egen st) by lia.
-      split; [apply N.eqb_eq; exact Hg|]. destruct (Hex Hg) as [r [Hr _]]. exists r; exact Hr. }
-    destruct stp; cbn [exec_step];
-      try (destruct (holder st m) eqn:Hh); try (destruct (holds st t m));
-      try (destruct (negb (s_dict st s =? 0)));
-      try (match goal with |- context [flag (t_reg ts)] => destruct (flag (t_reg ts)) end);
-      try (destruct (find_rec (s_erecs st) t 0));
-      try (match goal with |- context [err_resize ?x1 ?x2 ?x3 ?x4] => destruct (err_resize x1 x2 x3 x4) as [[g sz] md] end);
-      try (match goal with |- context [match t_reg ts with _ => _ end] =>
-             destruct (t_reg ts) as [|b0|[p0|]|b0] eqn:Hreg;
-             [| |destruct (Hvalid p0 eq_refl) as [Hg [r0 Hr0]]; rewrite Hg, Hr0| |] end);
-      cbn [fst snd]; nevs.
-Qed.
-
-Theorem err_rec_pointer_stable_small d0 progs sched :
-  (length progs <= 5)%nat ->
-  forall t e, In (t, e) (snd (run sched (init d0 progs))) -> is_dangling e = false.
-Proof.
-  intro Hn.
-  assert (H0 : err_inv (init d0 progs) /\ small_inv (length progs) (init d0 progs)).
-  { split; [apply err_inv_init|]. repeat split; cbn; try reflexivity.
-    - apply map_length.
-    - constructor.
-    - intros r []. }
-  destruct (run_invariant (fun st => err_inv st /\ small_inv (length progs) st) nodangle
-              (fun st u HI => exec_small (length progs) st u Hn HI) sched (init d0 progs) H0) as [_ HG].
-  exact HG.
 Qed.
